@@ -1217,13 +1217,13 @@ def btreemap_new2(m, a, c):
 @model("BTreeMap::get_mut")
 def btreemap_get_mut(m, a, c):
     mp = deref(a[0])
+    mp.d.setdefault("__profile__", True)
     k = repr(deref(a[1]))
     if k in mp.d:
         return some(Ptr(mp.d[k], 0))
     return none()
 
 
-@model("BTreeMap::insert")
 def btreemap_insert(m, a, c):
     mp = deref(a[0])
     k = repr(a[1])
@@ -1643,4 +1643,186 @@ def tsink_error(m, a, c):
 
 @model("<Sink as TendrilSink>::finish")
 def tsink_finish(m, a, c):
+    return UNIT
+
+
+# ---------------------------------------------------------------- XML serializer support: io::Write recorder, BTreeMap with symbolic keys, Vec of maps
+@model("<Wr as Write>::write_all", "<W as Write>::write_all", "<Wr as std::io::Write>::write_all", "<W as std::io::Write>::write_all")
+def write_all(m, a, c):
+    m.notes.setdefault("out", []).extend(bytes_of(a[1]))
+    return Enum("Result", "Ok", 0, [UNIT])
+
+
+@model("<W as Write>::write_fmt", "<Wr as Write>::write_fmt", "<W as std::io::Write>::write_fmt")
+def write_fmt(m, a, c):
+    # only used as write!(w, "{c}") with one Display char argument
+    args = a[1]
+    found = []
+
+    def walk(x):
+        if isinstance(x, Opaque):
+            if x.what == "fmtarg":
+                found.extend(x.args)
+            for y in x.args:
+                walk(y)
+        elif isinstance(x, (Arr, Tup)):
+            for y in x.f:
+                walk(y)
+        elif isinstance(x, Ptr):
+            walk(x.load())
+    walk(args)
+    if len(found) != 1:
+        raise Unsupported("write_fmt with %d arguments" % len(found))
+    m.notes.setdefault("out", []).extend(char_bytes(found[0]))
+    return Enum("Result", "Ok", 0, [UNIT])
+
+
+@model("<Result as Try>::branch")
+def result_branch(m, a, c):
+    r = a[0]
+    if r.variant == "Ok":
+        return Enum("ControlFlow", "Continue", 0, [r.f[0]])
+    return Enum("ControlFlow", "Break", 1, [Enum("Result", "Err", 1, [r.f[0]])])
+
+
+@model("<Result as FromResidual>::from_residual")
+def result_from_residual(m, a, c):
+    return a[0]
+
+
+@model("Atom::as_bytes")
+def atom_as_bytes(m, a, c):
+    return Ptr([Str(byte_view(deref(a[0]).ch), True)], 0)
+
+
+@model("BTreeMap::get")
+def btreemap_get(m, a, c):
+    mp = deref(a[0])
+    k = deref(a[1])
+    for i, (kk, vv) in enumerate(mp.d.setdefault("items", [])):
+        if m.branch_bool(val_eq(kk, k), "BTreeMap::get key"):
+            return some(Ptr(mp.d["items"][i], 1))
+    return none()
+
+
+@model("BTreeMap::contains_key")
+def btreemap_contains_key(m, a, c):
+    return is_some(btreemap_get(m, a, c))
+
+
+@model("BTreeMap::insert")
+def btreemap_insert2(m, a, c):
+    mp = deref(a[0])
+    if "items" not in mp.d and mp.d:
+        return btreemap_insert(m, a, c)        # the profiling map of the tokenizers (keys compared by repr)
+    items = mp.d.setdefault("items", [])
+    for it in items:
+        if m.branch_bool(val_eq(it[0], a[1]), "BTreeMap::insert key"):
+            old = it[1]
+            it[1] = a[2]
+            return some(old)
+    items.append([a[1], a[2]])
+    return none()
+
+
+@model("BTreeMap::iter", "<&BTreeMap as IntoIterator>::into_iter")
+def btreemap_iter(m, a, c):
+    mp = deref(a[0])
+    # (iteration order of a BTreeMap with symbolic keys is modelled as insertion order; callers only emit declarations,
+    # whose order is irrelevant)
+    return Iter([Tup([Ptr(it, 0), Ptr(it, 1)]) for it in mp.d.setdefault("items", [])], "map")
+
+
+@model("<Iter as Iterator>::next", "<std::collections::btree_map::Iter as Iterator>::next", "<std::slice::Iter as Iterator>::next")
+def generic_iter_next(m, a, c):
+    it = deref(a[0])
+    if it.i < len(it.seq):
+        it.i += 1
+        x = it.seq[it.i - 1]
+        if it.kind == "slice":
+            return some(Ptr(it.seq, it.i - 1))
+        return some(x)
+    return none()
+
+
+@model("<Iter as Iterator>::rev", "<std::slice::Iter as Iterator>::rev")
+def iter_rev(m, a, c):
+    it = a[0]
+    r = Iter(it.seq, "revslice")
+    r.i = len(it.seq)
+    return r
+
+
+@model("<Rev as Iterator>::next")
+def rev_next(m, a, c):
+    it = deref(a[0])
+    if it.i > 0:
+        it.i -= 1
+        return some(Ptr(it.seq, it.i))
+    return none()
+
+
+@model("<Rev as IntoIterator>::into_iter", "<Chars as IntoIterator>::into_iter", "<Iter as IntoIterator>::into_iter", "<AttrIter as IntoIterator>::into_iter")
+def into_iter_identity(m, a, c):
+    return a[0]
+
+
+@model("<AttrIter as Iterator>::next")
+def attr_iter_next(m, a, c):
+    it = deref(a[0])
+    if it.i < len(it.seq):
+        it.i += 1
+        return some(it.seq[it.i - 1])
+    return none()
+
+
+@model("Vec::pop")
+def vec_pop(m, a, c):
+    v = V(a[0])
+    return some(v.v.pop()) if v.v else none()
+
+
+@model("core::slice::<impl [T]>::last")
+def slice_last(m, a, c):
+    s = seq_of(a[0])
+    return some(Ptr(s, len(s) - 1)) if s else none()
+
+
+@model("core::slice::<impl [T]>::last_mut")
+def slice_last_mut(m, a, c):
+    return slice_last(m, a, c)
+
+
+@model("<AttrIter as Iterator>::collect", "<Iter as Iterator>::collect")
+def iter_collect(m, a, c):
+    it = a[0]
+    v = VecM(it.seq[it.i:])
+    it.i = len(it.seq)
+    return v
+
+
+@model("<&Vec as IntoIterator>::into_iter")
+def vec_ref_into_iter(m, a, c):
+    return Iter(V(a[0]).v, "slice")
+
+
+@model("<Vec as IntoIterator>::into_iter")
+def vec_into_iter(m, a, c):
+    # `for x in &v` and `for x in v` normalise to the same key: a reference argument means iteration by reference
+    if isinstance(a[0], Ptr):
+        return Iter(V(a[0]).v, "slice")
+    return Iter(V(a[0]).v, "owned")
+
+
+@model("<IntoIter as Iterator>::next", "<std::vec::IntoIter as Iterator>::next")
+def vec_intoiter_next(m, a, c):
+    it = deref(a[0])
+    if it.i < len(it.seq):
+        it.i += 1
+        return some(it.seq[it.i - 1])
+    return none()
+
+
+@model("<IntoIter as Drop>::drop", "<std::vec::IntoIter as Drop>::drop", "<Vec as Drop>::drop")
+def noop_drop(m, a, c):
     return UNIT
